@@ -403,7 +403,7 @@ func runC06(c *fw.Ctx) {
 	}
 	// (b)-(e) random values
 	r := c.Rand("values")
-	for i := 0; i < c.PerShard(c.Pick(150000, 3000000)); i++ {
+	for i := 0; i < c.PerShard(c.Pick(1500000, 30000000)); i++ {
 		v := c06RandomValue(r)
 		if i < 2 {
 			c.Sample(canon.Render(v))
@@ -415,7 +415,7 @@ func runC06(c *fw.Ctx) {
 	}
 	// (f) accepted texts
 	rt := c.Rand("texts")
-	for i := 0; i < c.PerShard(c.Pick(150000, 3000000)); i++ {
+	for i := 0; i < c.PerShard(c.Pick(1500000, 30000000)); i++ {
 		s := c05RandomText(rt)
 		if !utf8.ValidString(s) || strings.Contains(s, "\x00") {
 			continue
